@@ -146,7 +146,8 @@ def num_text(x):
     if x != x or x in (float('inf'), float('-inf')):
         return UNDEF
     if x == int(x):
-        return UNDEF
+        # a whole number held as a float: no decimal point ("3", not "3.0")
+        return str(int(x)) if abs(x) < 1e15 else UNDEF
     if not (1e-4 <= abs(x) < 1e15):
         return UNDEF
     r = repr(x)
